@@ -5,6 +5,9 @@
 -/
 import JoinModel.Props.Common
 import JoinModel.AsyncTry
+import JoinModel.AsyncSpec
+import JoinModel.Lemmas.SpecFacts
+import JoinModel.Concrete
 namespace JoinModel.Props.C06
 open JoinModel JoinModel.Props
 
@@ -78,5 +81,77 @@ theorem async_try_success_arity (σ : World) (parent : Option String) (p : Input
     exact List.mem_range.mp (List.mem_filter.mp hb).1
   have := specLoopAT_post (cfgFor σ parent p kind) hs.isTry _ _ _ (.vals ps) (allSucc_init' _) hact (by simp) h
   simpa [cfgFor, SpecCfg.n] using this
+
+/-! ### the async try macros under every schedule
+
+  `planLoop` (AsyncSpec.lean) is the `async move` block as a poll-level plan; `kont`/`sm` is whatever follows the step
+  loop (`planRun` puts the handler there).  The statement holds from any step `k` and any state `vals` the run may have
+  reached, for every schedule `gs` of gate openings. -/
+
+/-- the events of the chains of step `k` carry step number `k` -/
+theorem taskOf_events_step (c : SpecCfg) (pend : Pend) (k : Nat) (vals : List (Option Value)) (vis : List (String × Value))
+    (bc : Nat × List Value) : ∀ e ∈ (taskOf c pend k vals vis bc).allEvs, e.step = some k := by
+  intro e he
+  rw [taskOf_allEvs] at he
+  obtain ⟨ev, hev, rfl⟩ := List.mem_map.mp he
+  simp only [chainEvents, List.mem_append, List.mem_singleton, List.mem_map] at hev
+  rcases hev with (rfl | ⟨i, _, rfl⟩) | hev
+  · rfl
+  · rfl
+  · split at hev
+    · simp only [List.mem_singleton] at hev; subst hev; rfl
+    · cases hev
+
+/-- **A failed step aborts everything after it — async, every schedule.**  If, in step `k`, the block captures
+    succeed and some active chain ends with a stopping output (a failure in a try macro, a panic in any async macro),
+    then whatever gates are open at whatever polls: every event the future emits from here on belongs to step `k` (no
+    capture, chain or callback of a later step, no handler call), and the future is either still in step `k` or finished
+    with the stop result of one of step `k`'s stopping chains — the failure returned unchanged, or the panic. -/
+theorem failed_step_aborts_every_schedule (c : SpecCfg) (pend : Pend) (rem k : Nat) (vals : List (Option Value))
+    (capss : List (List Value))
+    (hc : (specCapsAll c k (visibleSpec c.names vals) (c.active k)).res = .ok capss)
+    (bc : Nat × List Value) (hbc : bc ∈ (c.active k).zip capss)
+    (hstop : stopOf c (taskOf c pend k vals (visibleSpec c.names vals) bc).out = true)
+    {ρ' : Type} (kont : Res Fin → List MEv × Plan MEv (UR Value) ρ') (sm : Res Fin → ρ') (gs : List Gates) :
+    (∀ e ∈ (((planLoop c pend rem k vals).2.bind kont sm).2.run gs).1, e.step = some k) ∧
+    ((((planLoop c pend rem k vals).2.bind kont sm).2.run gs).2.isDone = false ∨
+     ∃ o, (((planLoop c pend rem k vals).2.bind kont sm).2.run gs).2 = .done (sm (onStopOf o)) ∧ stopOf c o = true ∧
+       o ∈ ((c.active k).zip capss).map (fun bc => (taskOf c pend k vals (visibleSpec c.names vals) bc).out)) := by
+  -- the plan at step `k` is a step over the chains of the active branches
+  have hform : ∃ pre next, ((planLoop c pend rem k vals).2.bind kont sm).2 =
+      .step (stopOf c) (fun a => sm (onStopOf a))
+        (((c.active k).zip capss).map (taskOf c pend k vals (visibleSpec c.names vals))) pre next := by
+    cases rem with
+    | zero => unfold planLoop; simp only [hc, Plan.bind]; exact ⟨_, _, rfl⟩
+    | succ rem => unfold planLoop; simp only [hc, Plan.bind]; exact ⟨_, _, rfl⟩
+  obtain ⟨pre, next, hf⟩ := hform
+  rw [hf]
+  obtain ⟨h1, h2⟩ := Plan.run_stopper (fun e : MEv => e.step = some k) (stopOf c) (fun a => sm (onStopOf a)) pre next
+    ((((c.active k).zip capss).map (taskOf c pend k vals (visibleSpec c.names vals))).map (·.out))
+    ⟨_, List.mem_map_of_mem (List.mem_map_of_mem hbc), hstop⟩ gs _ rfl
+    (by
+      intro t ht
+      obtain ⟨bc', _, rfl⟩ := List.mem_map.mp ht
+      exact taskOf_events_step c pend k vals _ bc')
+  refine ⟨h1, ?_⟩
+  rcases h2 with ⟨ts', h2⟩ | ⟨a, h2, h3, h4⟩
+  · left; rw [h2]; rfl
+  · right
+    refine ⟨a, h2, h3, ?_⟩
+    simpa [List.map_map] using h4
+
+/-- the hypotheses are satisfiable: `try_join_async! { a, b ~=> f }` in a world where the first branch's initial
+    expression fails — in step 0 the captures succeed and chain (0, 0) has a stopping output -/
+example :
+    let d : WorldDesc := { chains := [((0, 0), [⟨.init, 1, .fail 7, 0⟩]), ((1, 0), [⟨.init, 2, .ok 1, 0⟩])] }
+    let ini : Member := ⟨.initial, false, .none, [⟨.expr, []⟩]⟩
+    let c : SpecCfg := ⟨mkWorld d, ⟨true, true, false⟩, [none, none], none,
+      [[[ini]], [[ini], [⟨.andThen, true, .none, [⟨.expr, []⟩]⟩]]]⟩
+    (specCapsAll c 0 (visibleSpec c.names [none, none]) (c.active 0)).res = .ok [[], []] ∧
+    ((0, []) : Nat × List Value) ∈ (c.active 0).zip [[], []] ∧
+    stopOf c (taskOf c (fun _ _ _ _ _ => []) 0 [none, none] (visibleSpec c.names [none, none]) (0, [])).out = true := by
+  intro d ini c
+  refine ⟨rfl, ?_, rfl⟩
+  decide
 
 end JoinModel.Props.C06
